@@ -374,6 +374,19 @@ func main() {
 					}
 					return e2elib.NewAnswer(304, nil, "ETag: "+etag)
 				}
+				if rg := req.Header.Get("Range"); res == nres-1 && rg != "" {
+					// the last resource lives on an origin that HONOURS Range: a satisfiable bytes=a-b is answered 206
+					// with that slice of the current version (a part is a part: nothing of it may ever be served as the whole)
+					full := mkBody(res, v, sizeOf(res, v))
+					var ra, rb int
+					if n, _ := fmt.Sscanf(rg, "bytes=%d-%d", &ra, &rb); n == 2 && ra >= 0 && ra <= rb && ra < len(full) {
+						if rb >= len(full) {
+							rb = len(full) - 1
+						}
+						return e2elib.NewAnswer(206, full[ra:rb+1], "Cache-Control: max-age=60", "ETag: "+etag,
+							fmt.Sprintf("Content-Type: application/x-r%dv%d", res, v), fmt.Sprintf("Content-Range: bytes %d-%d/%d", ra, rb, len(full)))
+					}
+				}
 				a := e2elib.NewAnswer(200, mkBody(res, v, sizeOf(res, v)), "Cache-Control: max-age=60", "ETag: "+etag,
 					fmt.Sprintf("Content-Type: application/x-r%dv%d", res, v))
 				if (res+v)%3 == 0 {
@@ -417,6 +430,9 @@ func main() {
 						a, b := -1, -1
 						if res >= nres/2 && rr.Chance(45) { // the lower half of the resources never sees a Range request (see below)
 							a = rr.Intn(150)
+							if rr.Chance(30) {
+								a = 0 // a prefix probe
+							}
 							b = a + rr.Intn(150)
 							hs = append(hs, fmt.Sprintf("Range: bytes=%d-%d", a, b))
 						}
@@ -507,7 +523,7 @@ func main() {
 	}
 	out := map[string]any{
 		"harness": "e2e01", "seed": *flagSeed, "tier": *flagTier, "total": total, "distinct": total, "distinct_nontrivial": total,
-		"rule":         "4 versioned self-describing resources (checksummed bodies, per-version ETag and Content-Type, sized or chunked) behind the real proxy with a 9 kB cache limit; 6 concurrent clients issuing GETs and (on resources 2-3 only) Range requests while versions change, entries are aged stale (revalidation 304/200), cleanup cycles and evictions run; x backends {memory,file} x transports {plain,CONNECT}. Each 200/206 with validators must be one complete version (or the announced slice) with that version's length and Content-Type; no client receives a version older than one fully received before its request started",
+		"rule":         "4 versioned self-describing resources (checksummed bodies, per-version ETag and Content-Type, sized or chunked) behind the real proxy with a 9 kB cache limit; 6 concurrent clients issuing GETs and (on resources 2-3 only) Range requests, 30 % of them prefix probes bytes=0-b (resource 3 lives on an origin that honours Range and answers 206 with the slice) while versions change, entries are aged stale (revalidation 304/200), cleanup cycles and evictions run; x backends {memory,file} x transports {plain,CONNECT}. Each 200/206 with validators must be one complete version (or the announced slice) with that version's length and Content-Type; no client receives a version older than one fully received before its request started",
 		"distribution": map[string]any{"env": dist, "responses": map[string]int64{"all": responses, "with_validators_checked": fromStore, "partial": partials}},
 		"samples":      []any{map[string]any{"backend": "file", "transport": "connect"}},
 		"files":        []string{}, "readable": []any{},
